@@ -755,9 +755,17 @@ func (w *World) schedule(main *Thread) {
 						ns[u] = true
 					}
 				}
+				// An earlier sibling u (explored first from this node) may sleep here only if the schedule that
+				// represents this branch in u's subtree - u's operation, then a switch to o - is itself within the
+				// pre-emption bound. Continuing the current thread is the free option, so the current thread may
+				// always sleep; for any other u the representative pays for one more switch (away from u, which is
+				// taken to be still enabled after its operation) than this branch does. Without this test the
+				// reduction and the bound together lose schedules that are within the bound (seed C15-m5).
 				for j := 0; j < k; j++ {
 					if u, ok := opts[j].(*Thread); ok && independentOps(u.pending, o.pending) {
-						ns[u] = true
+						if (u == cur && curEnabled) || w.preempts+1 <= w.eng.cfg.Preempt || !w.eng.cfg.SleepBound {
+							ns[u] = true
+						}
 					}
 				}
 				sleep = ns
